@@ -42,10 +42,13 @@ def hasKey {α : Type} (k : String) (l : List (String × α)) : Bool := (get? k 
 
 /-- Parameters seen by sample `i`: row `i` of every batched key, the caller's value of all others.
     Only the caller's keys exist in the result. -/
+def rowOr (rows : Rows) (i : Nat) (k : String) (v : Val) : Val :=
+  match get? k rows with
+  | some rs => rs.getD i []
+  | none => v
+
 def override (p : Params) (rows : Rows) (i : Nat) : Params :=
-  p.map fun kv => (kv.1, match get? kv.1 rows with
-    | some rs => rs.getD i []
-    | none => kv.2)
+  p.map fun kv => (kv.1, rowOr rows i kv.1 kv.2)
 
 /-! ### code side -/
 
@@ -63,17 +66,22 @@ def ofParams (p : Params) : Tree := p.map fun kv => (kv.1, Entry.plain kv.2)
 /-- `_update_eq_params_dict(params, batch_dict)`: a *new* tree in which the batched keys hold the
     stacked rows; `jax.tree_util.tree_map` raises (`ValueError`) when the batch names a key the
     caller does not have. -/
+def stackEntry (rows : Rows) (k : String) (e : Entry) : Entry :=
+  match get? k rows with
+  | some rs => Entry.stacked rs
+  | none => e
+
+def stackTree (t : Tree) (rows : Rows) : Tree := t.map fun e => (e.1, stackEntry rows e.1 e.2)
+
 def updateEq (t : Tree) (rows : Rows) : Except String Tree :=
-  if rows.all (fun r => hasKey r.1 t) then
-    .ok (t.map fun e => (e.1, match get? e.1 rows with
-      | some rs => Entry.stacked rs
-      | none => e.2))
-  else .error "value_error"
+  if rows.all (fun r => hasKey r.1 t) then .ok (stackTree t rows) else .error "value_error"
 
 /-- `_get_vmap_in_axes_params(batch_dict, params)`: `none` stands for `(None,)` (no batch at all);
     otherwise `0` on batched keys and `None` elsewhere (`nn_params = None` is implicit). -/
+def axisOf (ks : List String) (k : String) : Option Nat := if ks.contains k then some 0 else none
+
 def inAxes (t : Tree) (batched : Option (List String)) : Option (List (String × Option Nat)) :=
-  batched.map fun ks => t.map fun e => (e.1, if ks.contains e.1 then some 0 else none)
+  batched.map fun ks => t.map fun e => (e.1, axisOf ks e.1)
 
 /-- what `vmap` hands to the mapped function at index `i` for one leaf -/
 def pick : Entry → Option Nat → Nat → Val
@@ -134,12 +142,15 @@ abbrev Het := List (String × Option (List Rat → Params → Val))
 /-- `_eval_heterogeneous_parameters`: loops over the keys of `params.eq_params`; a declared function
     is applied to the point and the **original** parameters; `None`, a missing key (`KeyError`
     caught) or no declaration at all pass the value through. -/
+def hetVal (h : Het) (pt : List Rat) (p : Params) (k : String) (v : Val) : Val :=
+  match get? k h with
+  | some (some g) => g pt p
+  | _ => v
+
 def evalHetero (het : Option Het) (p : Params) (pt : List Rat) : Params :=
   match het with
   | none => p
-  | some h => p.map fun kv => (kv.1, match get? kv.1 h with
-    | some (some g) => g pt p
-    | _ => kv.2)
+  | some h => p.map fun kv => (kv.1, hetVal h pt p kv.1 kv.2)
 
 /-- `_decorator_heteregeneous_params`: the wrapped `evaluate` replaces its last argument; so
     `equation` – and whatever `equation` passes on to the network – receives the replaced parameters,
@@ -220,29 +231,33 @@ def normTerm (nm : Option (Rat × Rat × (List Rat → Params → Val) × List (
     if sizesOk xs.length t axes then .ok (normOf w L (vmapTerm f xs t axes))
     else .error "value_error"
 
+/-- `if batch.param_batch_dict is not None: params = _update_eq_params_dict(params, …)` -/
+def stage1 (t0 : Tree) (pr : Option Rows) : Except String Tree :=
+  match pr with
+  | none => .ok t0
+  | some rows => updateEq t0 rows
+
+/-- observation term: second update with the observed parameters
+    (`batch.obs_batch_dict["eq_params"]`), in-axes over both key sets -/
+def obsTerm (t1 : Tree) (pr orows : Option Rows) (obs : Option MseIn) : Except String Rat :=
+  match obs with
+  | none => .ok 0
+  | some m =>
+    match updateEq t1 (orows.getD []) with
+    | .error e => .error e
+    | .ok t2 => mseTerm m t2 (inAxes t2 (some (((pr.map keys).getD []) ++ keys (orows.getD []))))
+
 /-- `evaluate` of a single loss, started from an already built parameter tree (the system losses
     hand the updated tree to their internal single losses, which update it again). -/
 def evalSingleT (t0 : Tree) (s : Single) : Except String Terms := do
-  -- `if batch.param_batch_dict is not None: params = _update_eq_params_dict(...)`
-  let t1 ← match s.paramRows with
-    | none => pure t0
-    | some rows => updateEq t0 rows
+  let t1 ← stage1 t0 s.paramRows
   let ax1 := inAxes t1 (s.paramRows.map keys)
   let dyn ← optTerm (s.dyn.map fun m => { m with f := heteroWrap s.het m.f }) t1 ax1
   let icO ← icODETerm s.icODE t1 ax1
   let icP ← optTerm s.icPDE t1 ax1
   let bd ← sumTerms s.boundary t1 ax1
   let nm ← normTerm s.norm t1 ax1
-  -- observations: second update with the observed parameters, axes over both key sets
-  let ob ← match s.obs with
-    | none => pure 0
-    | some m =>
-      let orows := s.obsRows.getD []
-      match updateEq t1 orows with
-      | .error e => .error e
-      | .ok t2 =>
-        let ax2 := inAxes t2 (some (((s.paramRows.map keys).getD []) ++ keys orows))
-        mseTerm m t2 ax2
+  let ob ← obsTerm t1 s.paramRows s.obsRows s.obs
   pure { dyn := dyn, ic := icO + icP, boundary := bd, norm := nm, obs := ob }
 
 def evalSingle (p : Params) (s : Single) : Except String Terms := evalSingleT (ofParams p) s
